@@ -52,6 +52,39 @@ func c20Threshold(c *eng.Ctx) {
 	}
 	m := mustStatic(c, "shamir.Combine")
 	sites := c.P.FindCalls(m, func(fn *ssa.Function) bool { return !eng.InPkg(fn, "shamir") })
+	// A function that is not a tabled combiner and hands one of its own
+	// parameters to shamir.Combine is a forwarder (the reconstruction extracted
+	// into a helper): the threshold accounting is then owed by its call sites,
+	// with the argument bound to that parameter as the progress slice.
+	argIdx := map[ssa.CallInstruction]int{}
+	{
+		var expanded []eng.CallSite
+		for _, s := range sites {
+			fw := eng.TopFunc(s.Fn)
+			par, isPar := s.Call.Common().Args[0].(*ssa.Parameter)
+			if _, tabled := c20Combiners[eng.FuncName(fw)]; tabled || !isPar || fw != s.Fn || !eng.InPkg(fw, "vault") {
+				expanded = append(expanded, s)
+				continue
+			}
+			idx := -1
+			for i, p := range fw.Params {
+				if p == par {
+					idx = i
+				}
+			}
+			fm, _ := c.P.StaticCallee(eng.FuncName(fw))
+			cs := c.P.FindCalls(fm, nil)
+			if idx < 0 || len(cs) == 0 || !c20Forwarder(c, fw, s.Call, idx, cs, thrField) {
+				expanded = append(expanded, s)
+				continue
+			}
+			for _, cc := range cs {
+				argIdx[cc.Call] = idx
+				expanded = append(expanded, cc)
+			}
+		}
+		sites = expanded
+	}
 	c.Clause("R1", "C20.3a")
 	tbl := map[string]string{}
 	for k, v := range c20Combiners {
@@ -70,7 +103,7 @@ func c20Threshold(c *eng.Ctx) {
 		name := eng.FuncName(eng.TopFunc(f))
 		spec := c20Combiners[name]
 		call := s.Call
-		arg := call.Common().Args[0]
+		arg := call.Common().Args[argIdx[call]]
 		P := eng.ExprDeep(arg)
 		pfa, isField := c20FieldLoad(arg)
 		c.Clause("R5", "C20.3b")
@@ -603,4 +636,63 @@ func c20StickyFlag(f *ssa.Function, l c20Loop, flag *ssa.Phi, v ssa.Value, pred 
 		}
 		return ""
 	}
+}
+
+// c20Forwarder checks the body of a helper fw that passes its parameter #idx
+// to shamir.Combine (call comb): Combine's error is checked and a failure
+// returns no key; a threshold-1 shortcut reading parameter[0] is behind
+// [t == 1] for an integer parameter t of fw, and every call site binds t to
+// the SecretThreshold of a configuration. Returns false (after recording why)
+// if the helper cannot be treated as a transparent forwarder.
+func c20Forwarder(c *eng.Ctx, fw *ssa.Function, comb ssa.CallInstruction, idx int, callers []eng.CallSite, thrField *types.Var) bool {
+	par := fw.Params[idx]
+	c.Clause("R11", "C20.3d")
+	c.ErrChecked(fw, comb)
+	c.Clause("R4", "C20.3d")
+	c.NilResultOnEdges(fw, "shamir.Combine failed", eng.CallFailEdges(comb), 0, "key/result")
+	var shortcut []ssa.Instruction
+	for _, in := range eng.Instrs(fw, func(in ssa.Instruction) bool { _, ok := in.(*ssa.IndexAddr); return ok }) {
+		ia := in.(*ssa.IndexAddr)
+		if c20ConstInt(ia.Index, 0) && c20Strip(ia.X) == ssa.Value(par) {
+			shortcut = append(shortcut, in)
+		}
+	}
+	if len(shortcut) == 0 {
+		return true
+	}
+	c.Clause("R2", "C20.3b")
+	site := "threshold-1 shortcut " + eng.VarName(par) + "[0] in the forwarder"
+	var isOne []eng.Edge
+	tIdx := -1
+	for _, b := range fw.Blocks {
+		ifi := eng.IfOf(b)
+		if ifi == nil {
+			continue
+		}
+		x, y, ok := c20Eq(ifi)
+		if !ok || !c20ConstInt(y, 1) {
+			continue
+		}
+		for i, p := range fw.Params {
+			if c20Strip(x) == ssa.Value(p) {
+				tIdx = i
+				isOne = append(isOne, c20BaseEdge(ifi, true))
+			}
+		}
+	}
+	if tIdx < 0 {
+		c.Undecided(fw, site, shortcut[0].Pos(), "the helper reads "+eng.VarName(par)+"[0] without testing an integer parameter against 1: the rule cannot tell which threshold the shortcut belongs to")
+		return false
+	}
+	c.Cut(fw, "threshold-1 shortcut "+eng.VarName(par)+"[0]", shortcut, eng.Guard{Desc: "[" + eng.VarName(fw.Params[tIdx]) + " == 1]=true", Edges: isOne}, nil)
+	c.Clause("R5", "C20.3b")
+	for _, cc := range callers {
+		tfa, isT := c20FieldLoad(cc.Call.Common().Args[tIdx])
+		if isT && eng.FieldVar(tfa) == thrField {
+			c.OK(cc.Fn, "threshold handed to "+eng.FuncName(fw), cc.Call.Pos(), eng.ExprDeep(cc.Call.Common().Args[tIdx]))
+		} else {
+			c.Violation(cc.Fn, "threshold handed to "+eng.FuncName(fw), cc.Call.Pos(), "the helper's threshold parameter is bound to "+eng.ExprDeep(cc.Call.Common().Args[tIdx])+", not to a configuration's SecretThreshold", nil)
+		}
+	}
+	return true
 }
